@@ -17,6 +17,11 @@ func (d DPT_28001) Pack() []byte {
 }
 
 func (d *DPT_28001) Unpack(data []byte) error {
+	// At least the leading byte and the terminator have to be there.
+	if len(data) < 2 {
+		return ErrInvalidLength
+	}
+
 	var buf = data[1 : len(data)-1]
 
 	*d = DPT_28001(buf)
